@@ -189,8 +189,12 @@ def parse_json_tree(text, root, modpath="m"):
                 for d in val or []:
                     posn = d.get("posn", "")
                     m = re.match(r"(.*):(\d+):(\d+)$", posn)
+                    m2 = re.match(r"(.*):(\d+)$", posn)
                     if m:
                         fn, ln, col = m.group(1), int(m.group(2)), int(m.group(3))
+                    elif m2:
+                        # a position below a `//line file:N` directive without a column has no column
+                        fn, ln, col = m2.group(1), int(m2.group(2)), 0
                     else:
                         fn, ln, col = posn, 0, 0
                     if os.path.isabs(fn):
